@@ -199,6 +199,23 @@ def ob_sizes(x: int) -> bool:
     return _update_with(attr)
 
 
+def ob_notif_sizes(code: int, sub: int, fill: int) -> bool:
+    """NOTIFICATION carrying n octets of error data (what the agent echoes back can be a whole oversized attribute):
+    whatever the size, the header length is the number of octets written"""
+    from yabgp.message.notification import Notification
+    assume(0 <= code < 256 and 0 <= sub < 256 and 0 <= fill < 256)
+    VERDICT['walked'] = VERDICT['bad'] = VERDICT['none'] = 0
+    n = P['n']
+    data = bytes([fill]) * n
+    try:
+        Notification().construct(code, sub, data)
+    except Exception:
+        cover('refused')
+        return True
+    cover('walked')
+    return VERDICT['bad'] == 0 and VERDICT['none'] == 0 and VERDICT['walked'] == 1
+
+
 def ob_after_big(asn: int, med: int, x: int) -> bool:
     """one process, two messages: first messages whose attributes need the extended-length form (AS_PATH, communities,
     cluster list, MP_REACH over 255 octets), then an ordinary one with symbolic fields - which must be as well formed
@@ -270,11 +287,18 @@ def obligations(tier, seed):
     for tt in (6, 0, 1, 3):
         for evpn in (False, True):
             out.append(ob('C08/pmsi/tt=%d/evpn=%s' % (tt, evpn), 'ob_pmsi', {'tt': tt, 'evpn': evpn}))
-    rules = [{'1': '2001:db8::/32/0'}, {'1': '2001:db8::/64/32'}, {'1': '2001:db8::/128/0', '2': '2001:db8:1::/48/0'},
-             {'3': '=6|=17'}, {'1': '::/0/0'}, {'5': '=80|>=8080'}, {'1': '2001:db8::/33/1', '3': '=6'}]
+    def pfx(p, off):
+        return {'prefix': p, 'offset': off}
+    rules = [{'1': pfx('2001:db8::/32', 0)}, {'1': pfx('2001:db8:1:2::/64', 32)},
+             {'1': pfx('2001:db8::1/128', 0), '2': pfx('2001:db8:1::/48', 0)}, {'3': '=6|=17'}, {'1': pfx('::/0', 0)},
+             {'5': '=80|>=8080'}, {'1': pfx('2001:db8:8000::/33', 0), '3': '=6'}, {'1': pfx('2001:db8:1:2:3::/80', 64)},
+             {'1': pfx('2001:db8:1:2::/64', 8), '2': pfx('2001:db8:1:2:3:4::/96', 48)}, {'1': pfx('2001:db8:1:2::/64', 64)}]
     for i, r in enumerate(rules):
         for d in ('reach', 'unreach'):
-            out.append(ob('C08/flowspec6/%s/rule%d' % (d, i), 'ob_flowspec6', {'dir': d, 'rule': r}))
+            out.append(ob('C08/flowspec6/%s/rule%d' % (d, i), 'ob_flowspec6', {'dir': d, 'rule': r},
+                          covers=['walked'] if d == 'reach' else []))
+    for n in (0, 1, 4074, 4075, 4076, 4100, 6000):
+        out.append(ob('C08/sizes/notification-data/n=%d' % n, 'ob_notif_sizes', {'n': n}, cap=200))
     for asn4 in (False, True):
         out.append(ob('C08/after-big-messages/asn4=%s' % asn4, 'ob_after_big', {'asn4': asn4}, covers=['big'], cap=200))
     for kind, ns in (('communities', (63, 64)), ('extcomm', (31, 32)), ('largecomm', (21, 22)), ('cluster', (63, 64)),
